@@ -205,3 +205,7 @@ Lemma task_mode_open_refuted :
   /\ sumN (map w_self (task_rows 1024 killed)) = 8000
   /\ task_line 1024 [mkrec ENTRY 0 10 1000; mkrec ENTRY 1 20 5000] = (0, 0).
 Proof. vm_compute. repeat split; reflexivity. Qed.
+
+(* report --diff without colours: an increase of the Total from 100 ns to 300 ns is printed with a minus sign *)
+Lemma diff_sign_refuted : show_dtime 100 300 = Some (true, 0, 200, 0) /\ show_dtime 300 100 = Some (false, 0, 200, 0).
+Proof. vm_compute. split; reflexivity. Qed.
